@@ -66,6 +66,11 @@ def part_a():
     ok &= mc_expect("MCCommWin.tla", "MC_CommWin_pinned_eof.cfg", "commwin_F16_close_after_send", False)
     ok &= mc_expect("MCCommWin.tla", "MC_CommWin_pinned_err.cfg", "commwin_F17_bit_kept_on_error", False)
     ok &= mc_expect("MCCommWin.tla", "MC_CommWin_a.cfg", "commwin_repaired", True)
+    ok &= mc_expect("Launch.tla", "MC_Launch_c07g.cfg", "launch_state_set_after_status_read", False)
+    ok &= mc_expect("Launch.tla", "MC_Launch_f24.cfg", "launch_F24_status_read_not_retried", False)
+    ok &= mc_expect("Launch.tla", "MC_Launch_f2.cfg", "launch_F2_detached_failure_not_reaped", False)
+    ok &= mc_expect("Launch.tla", "MC_Launch_c07h.cfg", "launch_child_errno_read_as_own_EINTR", False)
+    ok &= mc_expect("Launch.tla", "MC_Launch.cfg", "launch_faithful", True)
     ok &= mc_expect("MCShQuote.tla", "MC_ShQuote.cfg", "shquote_F10_empty_argument", False, FixEmpty="FALSE")
     ok &= mc_expect("MCWinEnv.tla", "MC_WinEnv_pinned.cfg", "winenv_F20_nul_not_refused", False)
     return ok
